@@ -29,7 +29,7 @@ EXPLANATION = (
     'until hasStopAck, the quit path polls until hasQuitAck; (6) after the inner wait loop of doSearch the engine thread either '
     're-notifies itself or handles pending options before it can sleep again.'
     ' (7) completion-flag typestate of optionsSetFinished; waits written with the predicate overload are modelled like predicate loops.'
-    ' Added later; (10) every function that waits for has<X>Ack() polls with a handler whose <x>Ack callback calls send<X>Ack. (11) startSearch and ponderHit compute `infinite` from the same conjuncts.')
+    ' Added later; (10) every function that waits for has<X>Ack() polls with a handler whose <x>Ack callback calls send<X>Ack. (11) startSearch and ponderHit compute `infinite` from the same conjuncts. (12) a blocking wait of the protocol thread on the engine thread (waitStop / waitOptionsSet) is reached only with both hold flags cleared or when no search object exists: no circular wait with the engine thread\'s `while (*ponder || *infinite)`.')
 UNDECIDED = ('absence of deadlock or lost wake-up over all interleavings of the composed protocol (a liveness property: model '
              'checking territory, a different technique family); fairness of the OS scheduler.')
 ASSUMPTIONS = ['std::condition_variable / std::mutex semantics of the C++ standard',
@@ -54,6 +54,7 @@ def run(fb, rep, tier):
     c9_ack_forwarding(fb, rep)
     c10_ack_counting(fb, rep)
     c11_infinite_predicate(fb, rep)
+    c12_protocol_waits(fb, rep)
 
 
 # ----------------------------------------------------------------------------- .1
@@ -975,3 +976,68 @@ def c11_infinite_predicate(fb, rep, clause='C10.11'):
                 continue
             rep.ob(clause, 'K10 sibling agreement', '%s computes `infinite` from the same limits, in the same way, as %s' % (name.split('::')[-1], ref[0].split('::')[-1]),
                    txt == ref[1], R.site(f, e), '%s: %s; %s: %s' % (name.split('::')[-1], txt, ref[0].split('::')[-1], ref[1]), name)
+
+
+# ----------------------------------------------------------------------------- .12
+
+def c12_protocol_waits(fb, rep, clause='C10.12'):
+    """K2 no circular wait between the protocol thread and the engine thread.  After a ponder or infinite search the engine
+    thread holds its answer in `while (*ponder || *infinite)`, a wait only the protocol thread can end.  So wherever a
+    function of EngineControl (protocol thread) blocks on the engine thread - waitStop(), waitOptionsSet() - it must
+    either have cleared both hold flags on every path to the call, or be guarded by the test that no search object exists
+    (`!sc`: the engine thread has never been given a search).  An unconditional wait for pending options from `isready`
+    during `go infinite` blocks both threads for good."""
+    eng = fb.find1('EngineMainThread::doSearch')
+    if rep.need(clause, eng, 'EngineMainThread::doSearch') is None:
+        return
+    # premise: the hold loop of the engine thread reads exactly the two flags
+    held = set()
+    for h, body in eng.natural_loops().items():
+        c = (eng.blocks[h].get('term') or {}).get('cond')
+        names = {(ap(n) or '').split('.')[-1] for n in walk(c) if isinstance(n, dict) and n.get('k') == 'mem'} if c is not None else set()
+        for b in body:
+            c2 = (eng.blocks[b].get('term') or {}).get('cond')
+            if c2 is not None:
+                names |= {(ap(n) or '').split('.')[-1] for n in walk(c2) if isinstance(n, dict) and n.get('k') == 'mem'}
+        if {'ponder', 'infinite'} <= names:
+            held = {'ponder', 'infinite'}
+    if rep.need(clause, held, 'the hold loop `while (*ponder || *infinite)` of EngineMainThread::doSearch') is None:
+        return
+    WAITS = ('EngineMainThread::waitStop', 'EngineMainThread::waitOptionsSet')
+
+    def clears(e, fld):
+        if e is None:
+            return False
+        tgt = val = None
+        if e.get('k') == 'asg' and e.get('op') == '=':
+            tgt, val = e.get('l'), e.get('r')
+        elif e.get('k') == 'call' and e.get('op') == '=' and e.get('args'):
+            tgt, val = e.get('recv'), e['args'][0]
+        v = val
+        while isinstance(v, dict) and v.get('k') == 'cast' and 'cv' not in v:
+            v = v.get('e')
+        return tgt is not None and ap(tgt) == 'this.' + fld and isinstance(v, dict) and v.get('cv') == 0
+    n = 0
+    for f in sorted((f for f in fb.funcs.values() if f.has_cfg and f.d.get('cls') == 'EngineControl'), key=lambda x: x.name):
+        for b, i, e in f.events():
+            if not (e.get('k') == 'call' and cname(e) in WAITS):
+                continue
+            n += 1
+            def null_test(c, side):
+                # True if (c, side) says "this.sc is null"
+                c = strip_cast(c)
+                if isinstance(c, dict) and c.get('k') == 'un' and c.get('op') == '!':
+                    return null_test(c.get('e'), not side)
+                if isinstance(c, dict) and c.get('k') in ('bin', 'call') and c.get('op') in ('==', '!='):
+                    xs = [c.get('l'), c.get('r')] if c.get('k') == 'bin' else ([c['recv']] if c.get('recv') is not None else []) + c.get('args', [])
+                    if len(xs) == 2 and any(ap(strip_cast(x)) == 'this.sc' for x in xs) and any(isinstance(strip_cast(x), dict) and strip_cast(x).get('k') in ('nullptr', 'null') or (strip_cast(x) or {}).get('cv') == 0 for x in xs):
+                        return side == (c['op'] == '==')
+                    return False
+                if isinstance(c, dict) and c.get('k') == 'call' and not c.get('args') and c.get('recv') is not None:
+                    c = c['recv']            # operator bool of the smart pointer
+                return (not side) and ap(strip_cast(c)) == 'this.sc'
+            no_search = any(null_test(c, side) for c, side in G.guard_trees(f, set(f.blocks), b))
+            missing = [fld for fld in sorted(held) if f.path_avoiding((f.entry, -1), lambda x, e=e: x is e, lambda x, fld=fld: clears(x, fld)) is not None]
+            rep.ob(clause, 'K2 must-pass-through', '%s: the blocking %s() is reached only with both hold flags cleared, or when no search object exists' % (f.sname.split('::')[-1], cname(e).split('::')[-1]),
+                   no_search or not missing, R.site(f, e), 'guarded by !sc' if no_search else ('flags not cleared on some path: %s' % missing if missing else 'ponder and infinite cleared on every path'), f.sname)
+    rep.floor(clause, 'blocking waits on the engine thread in EngineControl', n, 3)
